@@ -121,7 +121,7 @@ func ruleC18(c *Ctx) {
 						// no further filter on the second table's entries (e.g. weight > 0)
 						for _, a := range pc.atoms() {
 							as := a.Atom.String()
-							if as != eq && !strings.HasPrefix(as, "binop[<](binop[+](const[1], phi") {
+							if as != eq && !isIterCond(a.Atom) {
 								good = false
 								why = "codons are summed only under an extra condition: " + short(as)
 							}
